@@ -221,6 +221,8 @@ pub struct Runner {
     pub keep_files: bool,
     /// do not pop delivered requests after try_read (the application collects them later with `pop_all`)
     pub defer_pop: bool,
+    /// the application takes at most this many requests after each read (0 = all of them)
+    pub pop_limit: usize,
 }
 
 /// Generous logical step budget for one try_read: the state loop handles at least one
@@ -234,7 +236,7 @@ impl Runner {
         if let Some(l) = limit {
             conn.set_payload_max_size(l);
         }
-        Runner { conn, script, keep_files: false, defer_pop: false }
+        Runner { conn, script, keep_files: false, defer_pop: false, pop_limit: 0 }
     }
 
     /// One try_read with whatever the script holds next.
@@ -260,10 +262,14 @@ impl Runner {
         if !matches!(res, RR::Panic(_)) {
             let pr = self.conn.verif_probe();
             PROBE_COV.with(|c| c.borrow_mut()[(pr.state as usize).min(3)][cursor_class(pr.read_cursor)] += 1);
+            let pop_limit = self.pop_limit;
             let popped = guarded(|| {
                 let mut v = Vec::new();
                 while let Some(r) = self.conn.pop_parsed_request() {
                     v.push(r);
+                    if pop_limit > 0 && v.len() >= pop_limit {
+                        break;
+                    }
                 }
                 v
             });
@@ -336,6 +342,37 @@ pub enum Gap {
 /// Feeds `stream` cut at `cuts` (strictly increasing positions inside the stream). Each segment
 /// is offered as one read event; if the connection takes fewer bytes the rest is re-offered.
 /// With `gap` an empty read is inserted before every segment after the first.
+/// The same stream, but the application takes at most `k` requests after each read and the rest when the
+/// stream is over (or the first error is reported). Returns the requests in the order they were handed out.
+pub fn run_stream_partial_pop(limit: Option<usize>, stream: &[u8], cuts: &[usize], k: usize) -> (Vec<ReqView>, Option<EK>, Option<String>) {
+    let mut r = Runner::new(limit);
+    r.pop_limit = k;
+    let mut delivered = Vec::new();
+    let mut start = 0usize;
+    for si in 0..=cuts.len() {
+        let end = if si < cuts.len() { cuts[si] } else { stream.len() };
+        if end <= start {
+            continue;
+        }
+        r.script.push_read(ReadEv::Data(stream[start..end].to_vec(), Vec::new()));
+        start = end;
+        while r.script.pending_reads() > 0 {
+            let so = r.read();
+            delivered.extend(so.delivered);
+            match so.res {
+                RR::Ok => {}
+                RR::Parse(e) => {
+                    delivered.extend(r.pop_all().0);
+                    return (delivered, Some(e), None);
+                }
+                other => return (delivered, None, Some(format!("{:?}", other))),
+            }
+        }
+    }
+    delivered.extend(r.pop_all().0);
+    (delivered, None, None)
+}
+
 pub fn run_stream(limit: Option<usize>, stream: &[u8], cuts: &[usize], gap: Gap, eof: bool) -> Outcome {
     let mut r = Runner::new(limit);
     let mut out = Outcome {
